@@ -2,6 +2,7 @@ package main
 
 import (
 	"fmt"
+	"os"
 	"go/types"
 	"strings"
 
@@ -179,6 +180,9 @@ func (ex *Exec) checkAssert(st *State, f *Frame, cond *Term, msg string) {
 		ex.rep.MaxTermSize = sz
 	}
 	neg := ex.ctx.Not(cond)
+	if os.Getenv("GOSYM_DEBUG_ASSERT") != "" {
+		fmt.Fprintf(os.Stderr, "ASSERT %q: %s\n", msg, dumpTerm(cond, 3))
+	}
 	q := append(append([]*Term{}, st.pc...), neg)
 	var extraVars []*Term
 	for _, n := range st.nondets {
@@ -323,3 +327,28 @@ func (ex *Exec) bitLen(x *Term) *Term {
 }
 
 var _ = types.Typ
+
+func dumpTerm(t *Term, depth int) string {
+	if t.Op == OConst {
+		return constSMT(t)
+	}
+	if t.Op == OVar {
+		return t.Name
+	}
+	if depth == 0 {
+		return fmt.Sprintf("t%d{%d}", t.ID, TermSize(t))
+	}
+	n := opNames[t.Op]
+	if n == "" {
+		n = fmt.Sprintf("op%d", t.Op)
+	}
+	s := "(" + n
+	for i, a := range t.Args {
+		if i > 40 {
+			s += " ..."
+			break
+		}
+		s += " " + dumpTerm(a, depth-1)
+	}
+	return s + ")"
+}
